@@ -254,6 +254,8 @@ impl Stats {
 pub struct World {
     pub gen_id: u64,
     pub main_done: bool,
+    /// set when the main shell `exec`ed a simulated program: its raw wait status
+    pub exec_replaced: Option<i32>,
     pub active: bool,
     pub cfg: SimConfig,
     pub rng: Rng,
@@ -300,6 +302,7 @@ impl World {
         Self {
             gen_id: 0,
             main_done: false,
+            exec_replaced: None,
             active: false,
             cfg: SimConfig::default(),
             rng: Rng::new(0),
@@ -621,6 +624,22 @@ pub fn end_run() -> World {
     set_my_pid(None);
     CV.notify_all();
     w
+}
+
+/// The main shell replaced its process image (`exec`): the run is over, with this wait status.
+pub fn exec_replace(raw: i32) -> ! {
+    {
+        let mut g = lock();
+        if let Some(w) = g.as_mut() {
+            w.exec_replaced = Some(raw);
+            if w.abort.is_none() {
+                // every other participant dies with the process
+                w.abort = Some(Abort::Panic { detail: "exec".into() });
+            }
+        }
+    }
+    CV.notify_all();
+    abort_now()
 }
 
 fn abort_now() -> ! {
